@@ -889,6 +889,28 @@ Theorem c11_compiled_build_symtab : forall p rf, wf_file rf -> Driver.table_of_s
 Proof. exact SrcTie.src_build_symtab. Qed.
 Print Assumptions c11_compiled_build_symtab.
 
+(* the Symbolizer level, compiled: for every module list whose symbol tables were parsed from well-formed files and every
+   fuel covering them, the compiled fill_source_line_info (module lookup, Symbolizer::fill_symbol, SymbolFile::fill_symbol,
+   reversal) on a fresh StackFrame returns — no panic at any of its sites — and the frame is the pure result that
+   c11_module_frame_total gives for [frame_of]: the module found attached, fill_pure at that module's base, inlines reversed *)
+Theorem c11_compiled_frame_total : forall p fuel (mods : list module) instr,
+  Forall wf_module mods -> Forall module_parsed mods -> instr < two64 ->
+  (forall b sz st, In (b, sz, Some st) mods -> SrcTie.fuel_covers st fuel) ->
+  exists tbl, mod_table mods = Ret tbl /\
+    C11Src.src_fill_source_line_info p fuel (Prims.mk_sframe instr None empty_out) (tbl, mods) =
+      Ret (match rm_get tbl instr with
+           | None => Prims.mk_sframe instr None empty_out
+           | Some idx =>
+               match nth_error mods (Z.to_nat idx) with
+               | Some (b, _, Some st) =>
+                   let o := fill_pure st b instr in
+                   Prims.mk_sframe instr (Some idx) (mk_out (o_func o) (o_src o) (rev (o_inl o)))
+               | _ => Prims.mk_sframe instr (Some idx) empty_out
+               end
+           end).
+Proof. exact SrcTie.src_frame_total. Qed.
+Print Assumptions c11_compiled_frame_total.
+
 Theorem c11_compiled_driver_fuel : forall st, SrcTie.fuel_covers st (Prims.src_fuel st).
 Proof. exact SrcTie.src_fuel_covers. Qed.
 Print Assumptions c11_compiled_driver_fuel.
